@@ -224,3 +224,32 @@ pub fn census() -> Census {
     c.z_created = ZCREATED.with(|c| c.get());
     c
 }
+
+
+/// The range `s..e` written with other bound kinds (all denote the same indices):
+/// 0 = `s..e`, 1 = (Excluded(s-1), Excluded(e)), 2 = (Included(s), Included(e-1)), 3 = (Excluded(s-1), Included(e-1)),
+/// 4 = unbounded where possible (start if s == 0, end if e == len). Forms that cannot express the pair fall back to 0.
+pub fn bounds(form: usize, s: usize, e: usize, len: usize) -> (std::ops::Bound<usize>, std::ops::Bound<usize>) {
+    use std::ops::Bound::*;
+    let lo_ex = |s: usize| if s >= 1 { Excluded(s - 1) } else { Included(s) };
+    let hi_in = |e: usize| if e >= 1 { Included(e - 1) } else { Excluded(e) };
+    match form {
+        1 => (lo_ex(s), Excluded(e)),
+        2 => (Included(s), hi_in(e)),
+        3 => (lo_ex(s), hi_in(e)),
+        4 => (if s == 0 { Unbounded } else { Included(s) }, if e == len { Unbounded } else { Excluded(e) }),
+        _ => (Included(s), Excluded(e)),
+    }
+}
+
+/// does `form` write `s..e` differently from form 0?
+pub fn bounds_form_applies(form: usize, s: usize, e: usize, len: usize) -> bool {
+    match form {
+        0 => true,
+        1 => s >= 1,
+        2 => e >= 1,
+        3 => s >= 1 && e >= 1,
+        4 => s == 0 || e == len,
+        _ => false,
+    }
+}
